@@ -137,8 +137,8 @@ inline History histParse(const std::string& t) {
   return h;
 }
 
-static const int NSCALARS = 10;
-static const char* kScalarName[] = {"null", "true", "42", "-7e10", "1.5", "1e100", "\"k\"linked", "\"k\"copied", "\"v2\"copied", "raw[1]"};
+static const int NSCALARS = 12;
+static const char* kScalarName[] = {"null", "true", "42", "-7e10", "1.5", "1e100", "\"k\"linked", "\"k\"copied", "\"v2\"copied", "raw[1]", "raw\\xc9", "raw\\xc6\\x80000000"};
 static const char* kTexts[] = {"{\"k\":[1,\"k\"]}", "[1e100,\"v2\"]", "\"k\"", "[1,"};
 static const int NTEXTS = 4;
 
@@ -191,7 +191,9 @@ inline MValue scalarModel(int s) {
     case 5: return MValue::f64(1e100);
     case 6: case 7: return MValue::str("k");
     case 8: return MValue::str("v2");
-    default: return MValue::raw("[1]");
+    case 9: return MValue::raw("[1]");
+    case 10: return MValue::raw("\xc9");                                  // an ext32 header without its size bytes
+    default: return MValue::raw(std::string("\xc6\x80\x00\x00\x00", 5));  // a bin32 header announcing 2^31 bytes
   }
 }
 
@@ -532,7 +534,9 @@ inline bool setScalar(T t, int s) {
     case 6: return t.set("k");
     case 7: return t.set(std::string("k"));
     case 8: return t.set(std::string("v2"));
-    default: return t.set(serialized(std::string("[1]")));
+    case 9: return t.set(serialized(std::string("[1]")));
+    case 10: return t.set(serialized(std::string("\xc9")));
+    default: return t.set(serialized(std::string("\xc6\x80\x00\x00\x00", 5)));
   }
 }
 template <typename T>
@@ -547,7 +551,9 @@ inline bool addScalar(T t, int s) {
     case 6: return t.add("k");
     case 7: return t.add(std::string("k"));
     case 8: return t.add(std::string("v2"));
-    default: return t.add(serialized(std::string("[1]")));
+    case 9: return t.add(serialized(std::string("[1]")));
+    case 10: return t.add(serialized(std::string("\xc9")));
+    default: return t.add(serialized(std::string("\xc6\x80\x00\x00\x00", 5)));
   }
 }
 
@@ -655,7 +661,7 @@ struct Alphabet {
 };
 
 inline void enabledOps(const World& W, const Alphabet& AB, std::vector<Op>& out) {
-  std::vector<int> setScalars = AB.full ? std::vector<int>{0, 1, 2, 3, 4, 5, 6, 7, 8, 9} : std::vector<int>{0, 2, 3, 6, 7, 8};
+  std::vector<int> setScalars = AB.full ? std::vector<int>{0, 1, 2, 3, 4, 5, 6, 7, 8, 9, 10, 11} : std::vector<int>{0, 2, 3, 6, 7, 8, 10};
   std::vector<int> addScalars = AB.full ? std::vector<int>{2, 3, 7, 8} : std::vector<int>{2, 7};
   std::vector<std::string> keys = {"a", "b"};
   std::vector<Path> paths[2] = {allPaths(W.M[0]), allPaths(W.M[1])};
